@@ -210,7 +210,9 @@ class FalsyStrictUndefined(StrictUndefined):
         return False
 
     def __eq__(self, other: object) -> bool:
-        return other is False
+        # The same answer as the default undefined type gives. Filters compare
+        # their arguments with `==` (and `in`, `index`) directly.
+        return isinstance(other, Undefined) or other is None
 
 
 def is_undefined(obj: object) -> bool:
